@@ -291,6 +291,75 @@ def probe_multiget_independence(seed, limit):
     return None
 
 
+def probe_validators(seed, limit):
+    """C02: what GET serves is what was stored, byte for byte, for a vCard with bare-LF line ends, and its
+    ETag is the git blob id of exactly those bytes; C08: a write inside a nested collection moves none of
+    the outer collection's tags; C17 / C16: a member whose name contains '+' is answered by multiget under
+    its literal href exactly as GET answers it."""
+    import hashlib
+    from xml.etree import ElementTree as ET
+
+    def blob_id(b):
+        return hashlib.sha1(b"blob %d\0" % len(b) + b).hexdigest()
+
+    s = Server()
+    try:
+        ab = "/user/contacts/addressbook/"
+        for label, card in (("LF", b"BEGIN:VCARD\nVERSION:3.0\nFN:Line Feed\nN:Feed;Line;;;\nEND:VCARD\n"),
+                            ("CRLF", b"BEGIN:VCARD\r\nVERSION:3.0\r\nFN:Line Feed\r\nN:Feed;Line;;;\r\nEND:VCARD\r\n")):
+            r = s.request("PUT", ab + "lf.vcf", {"Content-Type": "text/vcard"}, card)
+            g = s.request("GET", ab + "lf.vcf")
+            inp = {"requests": [["PUT", ab + "lf.vcf", {"Content-Type": "text/vcard"}, card.decode()], ["GET", ab + "lf.vcf", {}, ""]]}
+            if r["status"] not in (201, 204) or g["status"] != 200:
+                return {"input": inp, "expected": "PUT 201/204 and GET 200", "observed": f"{r['status']} / {g['status']}"}
+            if g["body"] != card:
+                return {"input": inp, "expected": f"GET serves the {label} vCard byte for byte", "observed": repr(g["body"][:80])}
+            et = (g["headers"].get("ETag") or "").strip('"')
+            if et != blob_id(g["body"]) or (r["headers"].get("ETag") or "").strip('"') != et:
+                return {"input": inp, "expected": f"ETag of PUT and GET = git blob id of the served bytes ({blob_id(g['body'])})",
+                        "observed": f"PUT {r['headers'].get('ETag')} GET {g['headers'].get('ETag')}"}
+        # nested collections
+        outer, inner = "/user/calendars/outer/", "/user/calendars/outer/inner/"
+        s.request("MKCALENDAR", outer)
+        s.request("MKCALENDAR", inner)
+
+        def tags(url):
+            r_ = s.request("PROPFIND", url, {"Depth": "0", "Content-Type": "text/xml"},
+                           b"<D:propfind xmlns:D='DAV:' xmlns:CS='http://calendarserver.org/ns/'><D:prop><CS:getctag/><D:getctag/><D:sync-token/><D:getetag/></D:prop></D:propfind>")
+            if r_["status"] != 207:
+                return None
+            return tuple((x.tag, x.text or "") for x in ET.fromstring(r_["body"]).iter()
+                         if x.tag in ("{http://calendarserver.org/ns/}getctag", "{DAV:}getctag", "{DAV:}sync-token", "{DAV:}getetag"))
+        before = tags(outer)
+        w = s.request("PUT", inner + "x.ics", {"Content-Type": "text/calendar"}, ics("u-inner", 0))
+        after = tags(outer)
+        if before is None or after is None or (w["status"] in (201, 204) and before != after):
+            return {"input": {"requests": [["MKCALENDAR", outer, {}, ""], ["MKCALENDAR", inner, {}, ""], ["PUT", inner + "x.ics", {}, "..."]]},
+                    "expected": f"the tags of {outer} are not moved by a write to {inner}: {before}", "observed": f"{after}"}
+        w2 = s.request("PUT", outer + "y.ics", {"Content-Type": "text/calendar"}, ics("u-outer", 0))
+        if w2["status"] in (201, 204) and tags(outer) == after:
+            return {"input": {"requests": [["PUT", outer + "y.ics", {}, "..."]]}, "expected": f"a write to {outer} moves its tags", "observed": f"{after}"}
+        # a '+' in a member name
+        plus = CAL + "team+ops.ics"
+        p_ = s.request("PUT", plus, {"Content-Type": "text/calendar"}, ics("u-plus", 0))
+        g = s.request("GET", plus)
+        body = ("<C:calendar-multiget xmlns:D='DAV:' xmlns:C='urn:ietf:params:xml:ns:caldav'><D:prop><D:getetag/></D:prop>"
+                f"<D:href>{plus}</D:href></C:calendar-multiget>").encode()
+        m = s.request("REPORT", CAL, {"Content-Type": "text/xml", "Depth": "1"}, body)
+        inp = {"requests": [["PUT", plus, {}, "..."], ["REPORT", CAL, {}, "multiget " + plus]]}
+        if p_["status"] not in (201, 204) or g["status"] != 200 or m["status"] != 207:
+            return {"input": inp, "expected": "PUT 201, GET 200, REPORT 207", "observed": f"{p_['status']} {g['status']} {m['status']}"}
+        resp = ET.fromstring(m["body"]).findall("{DAV:}response")
+        ok = (len(resp) == 1 and urllib.parse.unquote(resp[0].find("{DAV:}href").text) == plus
+              and (resp[0].find(".//{DAV:}getetag") is not None and resp[0].find(".//{DAV:}getetag").text == g["headers"].get("ETag")))
+        if not ok:
+            return {"input": inp, "expected": f"one response for {plus} with the ETag GET shows ({g['headers'].get('ETag')})",
+                    "observed": m["body"][:300].decode("utf-8", "replace")}
+    finally:
+        s.close()
+    return None
+
+
 def probe_status_hrefs(seed, limit):
     """C16: the href of every response element of every multistatus - also of PROPPATCH answers, of
     the 404 answer for a missing target and of DAV:error bodies - is the request target as a path
@@ -683,6 +752,7 @@ GROUPS = {
     "listing": probe_listing,
     "members": probe_members,
     "independence": probe_multiget_independence,
+    "validators": probe_validators,
     "status_hrefs": probe_status_hrefs,
     "model": probe_model,
 }
@@ -699,7 +769,7 @@ def groups_for(fn):
         return ["listing", "model"]
     if fn and "PostMethod" in fn:
         return ["post_location", "model"]
-    return ["model", "traversal", "refused_mkcol", "post_location", "listing", "members", "independence", "status_hrefs"]
+    return ["model", "traversal", "refused_mkcol", "post_location", "listing", "members", "independence", "status_hrefs", "validators"]
 
 
 class Http:
@@ -708,7 +778,7 @@ class Http:
         quick = req.get("tier", "quick") == "quick"
         tried = {}
         for g in groups_for(req.get("function")):
-            limit = {"traversal": 60 if quick else 600, "refused_mkcol": 11, "listing": 6, "members": 24, "independence": 6, "status_hrefs": 3, "model": 40 if quick else 400, "post_location": 4}[g]
+            limit = {"traversal": 60 if quick else 600, "refused_mkcol": 11, "listing": 6, "members": 24, "independence": 6, "status_hrefs": 3, "model": 40 if quick else 400, "post_location": 4, "validators": 3}[g]
             bad = GROUPS[g](seed, limit)
             tried[g] = limit
             if bad:
